@@ -1102,6 +1102,15 @@ fn implement_reprc_struct(
         } else {
             min_safe_version = min_safe_version.max(verinfo.min_safe_version());
 
+            if !removed.is_removed() && field_to_version < std::u32::MAX {
+                // The field still occupies memory, but is absent from the serialized form
+                // of every version after 'field_to_version'.
+                if expect_fast {
+                    abort!(field.field_span, "The #[savefile_require_fast] attribute cannot be used when a field that is not Removed has a closed version range");
+                } else {
+                    return implement_reprc_hardcoded_false(name, input);
+                }
+            }
             if !removed.is_removed() {
                 reprc_outputs.push(
                     quote_spanned!( span => <#field_type as #reprc>::repr_c_optimization_safe(#local_file_version).is_yes()),
